@@ -806,6 +806,7 @@ package rosmar
 //@   ensures [C01,C05:GetWithXattrs.delegates] count("call:Collection.getRawWithXattrs") == 1 && callarg("Collection.getRawWithXattrs", 1) == key && callarg("Collection.getRawWithXattrs", 0) == c
 //@   ensures [C01,C05:GetWithXattrs.body]   err == nil ==> v == callret("Collection.getRawWithXattrs", 0).Body && cas == callret("Collection.getRawWithXattrs", 0).Cas
 //@   ensures [C01,C05:GetWithXattrs.missing] callret("Collection.getRawWithXattrs", 1) == nil && isnull(callret("Collection.getRawWithXattrs", 0).Body) && len(callret("Collection.getRawWithXattrs", 0).Xattrs) == 0 ==> ismissing(err)
+//@   ensures [C01,C05:GetWithXattrs.a-document-with-a-body-is-not-missing] callret("Collection.getRawWithXattrs", 1) == nil && !isnull(callret("Collection.getRawWithXattrs", 0).Body) ==> !ismissing(err)
 //@   ensures [C01:GetWithXattrs.error]      callret("Collection.getRawWithXattrs", 1) != nil ==> err == callret("Collection.getRawWithXattrs", 1)
 //@   ensures [C01:GetWithXattrs.frame]      db == old(db)
 //@
